@@ -49,6 +49,7 @@ func init() {
 			{Name: "state-machine-stalled-cea", Weight: 1, Bubble: true, Run: func(e *Env) { smaRun(e, "C08") }},
 			{Name: "client-two-connections-blocked-handler", Weight: 1, Bubble: true, Run: c08ClientTwo},
 			{Name: "handler-closes-and-lingers", Weight: 1, Bubble: true, Run: c08CloseLingers},
+			{Name: "registration-while-a-handler-blocks", Weight: 1, Bubble: true, Run: c08PendingRegistration},
 			{Name: "sweep-schedules", Bubble: true, Run: c08Sweep, SweepN: c08SweepN, QuickSweep: true, Exhaustive: true,
 				SweepNote: "2 connections x 2 messages: every interleaving of the two connections' step sequences (deliver, deliver, release, release in both per-connection orders; 70 x 4) x every choice of which of the 4 handlers park (16): 4 480 schedules, each followed by the drain and the history oracle"},
 			{Name: "serve-yield", Weight: 3, Bubble: true, Run: func(e *Env) {
@@ -537,5 +538,108 @@ func c08CloseLingers(e *Env) {
 			e.Fail("C08/message-lost", "message %s of a connection accepted while another connection's handler lingered after closing was never handled (handled: %v)", tg, enters)
 			return
 		}
+	}
+}
+
+// c08PendingRegistration: a handler blocks on connection A; meanwhile the application
+// registers another handler on the same mux from a goroutine of its own (modules that start
+// late; an sm.Client dialling, which registers its handlers on every dial). Messages arriving
+// on connection B must be dispatched all the same.
+func c08PendingRegistration(e *Env) {
+	t := e.T
+	e.TrustWait = false
+	lis := newSimListener(e)
+	mux := diam.NewServeMux()
+	var mu sync.Mutex
+	var entered []string
+	var gate chan struct{}
+	mux.HandleFunc("ALL", func(c diam.Conn, m *diam.Message) {
+		tag := "?"
+		if len(m.AVP) > 0 {
+			tag = string(m.AVP[0].Data.Serialize())
+		}
+		mu.Lock()
+		entered = append(entered, tag)
+		var g chan struct{}
+		if tag == "A0" {
+			g = make(chan struct{})
+			gate = g
+			e.ParkBegin(true)
+		}
+		mu.Unlock()
+		if g != nil {
+			<-g
+		}
+	})
+	srv := &diam.Server{Handler: mux, Dict: simDict()}
+	go srv.Serve(lis)
+	req := func(tag string, hbh uint32) []byte {
+		return RefMsg{Cmd: 900, Flags: 0x80, HbH: hbh, E2E: hbh, AVPs: []RefAVP{{Code: avpSimOctets, Data: []byte(tag)}}}.Bytes()
+	}
+	a := newSimConn(e, "A", drawAddr(t, 3868), drawAddr(t, 43001))
+	b := newSimConn(e, "B", drawAddr(t, 3868), drawAddr(t, 43002))
+	lis.Connect(a)
+	lis.Connect(b)
+	regDone := make(chan struct{})
+	defer func() {
+		mu.Lock()
+		g := gate
+		gate = nil
+		mu.Unlock()
+		if g != nil {
+			e.ParkEnd(true)
+			close(g)
+		}
+		e.Quiesce()
+		a.EndRead(io.EOF, false)
+		b.EndRead(io.EOF, false)
+		lis.Close()
+		e.Quiesce()
+	}()
+	if t.Chance(1, 2) {
+		b.Deliver(req("B0", 10)) // B has been served before
+	}
+	a.Deliver(req("A0", 1))
+	e.Quiesce()
+	mu.Lock()
+	parked := gate != nil
+	mu.Unlock()
+	if !parked {
+		e.Fail("C08/not-dispatched", "the first message of connection A was not handled")
+		return
+	}
+	// the application registers one more handler while A's handler is still running
+	name := []string{"XBR", "YCA", "Q9R"}[t.Draw(3)]
+	byIdx := t.Chance(1, 3)
+	go func() {
+		if byIdx {
+			mux.HandleIdx(diam.CommandIndex{AppID: 1002, Code: 910, Request: true}, diam.HandlerFunc(func(diam.Conn, *diam.Message) {}))
+		} else {
+			mux.HandleFunc(name, func(diam.Conn, *diam.Message) {})
+		}
+		close(regDone)
+	}()
+	e.Quiesce()
+	e.Act("register-while-blocked", "%s idx=%v", name, byIdx)
+	e.Probe("registration-while-handler-blocked")
+	e.NonTrivial()
+	b.Deliver(req("B1", 11))
+	e.Quiesce()
+	mu.Lock()
+	gotB1 := false
+	for _, tg := range entered {
+		if tg == "B1" {
+			gotB1 = true
+		}
+	}
+	mu.Unlock()
+	if !gotB1 {
+		pending := "had returned"
+		select {
+		case <-regDone:
+		default:
+			pending = "is still waiting (for the mux lock the blocked dispatch holds)"
+		}
+		e.Fail("C08/blocked-by-other-connection/pending-registration", "a handler blocks on connection A and the application registers another handler on the mux, a call which %s; a message arriving on connection B is not dispatched until A's handler returns", pending)
 	}
 }
